@@ -8,10 +8,10 @@ Inductive c05_case :=
 (* independent Transport.DialPeer(x, a) calls on a real quic transport; obs: per
    Attempt the remote peer of the returned link (>0), 0 = (nil,nil), -1 = error;
    final: the peer registered at the address (0 = none) *)
-| Calls (x a : Z) (e : list env) (obs : list Z) (final : Z)
+| Calls (x a ra : Z) (e : list env) (obs : list Z) (final : Z)
 (* Controller.DialPeerAddr(x, a) with the real retry loop: obs = peer of the
    link it returned (0 = still waiting when the script ended) *)
-| Loop (x a : Z) (e : list env) (obs : Z)
+| Loop (x a ra : Z) (e : list env) (obs : Z)
 (* overlapping DialPeer calls to the same address with different requested peers,
    the dial held in flight by the harness; obs: result code per call, in call
    order (-2 = still waiting) *)
@@ -25,12 +25,12 @@ Fixpoint res_lookup (i : nat) (l : list (nat * dres)) : Z :=
 
 Definition c05_agree (c : c05_case) : bool :=
   match c with
-  | Calls x a e obs final =>
-      let (rs, s) := calls [] x a e in
+  | Calls x a ra e obs final =>
+      let (rs, s) := calls [] x a ra e in
       list_eqb Z.eqb (map dres_code rs) obs &&
-      Z.eqb (match aget a s with Some p => p | None => 0 end) final
-  | Loop x a e obs =>
-      Z.eqb (match dialer_link (fst (dialer_loop [] x a e)) with Some p => p | None => 0 end) obs
+      Z.eqb (match aget ra s with Some p => p | None => 0 end) final
+  | Loop x a ra e obs =>
+      Z.eqb (match dialer_link (fst (dialer_loop [] x a ra e)) with Some p => p | None => 0 end) obs
   | Shared a e obs =>
       let st := crun a e in
       list_eqb Z.eqb (map (fun i => res_lookup i (c_res st)) (seq 0 (c_next st))) obs
